@@ -1086,17 +1086,30 @@ func (c *Ctx) connPointersRule(rule string) {
 		for _, g := range c.GoSites(m) {
 			n++
 			spawner = g.Parent()
-			ok := c.domInterproc(g.Parent(), g, func(in ssa.Instruction) bool {
-				s, isS := in.(*ssa.Store)
-				if !isS {
+			ok := true
+			for _, iof := range a.IOFields {
+				iof := iof
+				if !c.domInterproc(g.Parent(), g, func(in ssa.Instruction) bool {
+					s, isS := in.(*ssa.Store)
+					if !isS {
+						return false
+					}
+					if fv, _ := fieldOf(s.Addr); fv != iof {
+						return false
+					}
+					call, isC := s.Val.(*ssa.Call)
+					if !isC {
+						return false
+					}
+					switch calleeName(&call.Call) {
+					case "bufio.NewReadWriter", "bufio.NewReader", "bufio.NewWriter", "bufio.NewReaderSize", "bufio.NewWriterSize":
+						return true
+					}
 					return false
+				}, 0) {
+					ok = false
 				}
-				if fv, _ := fieldOf(s.Addr); fv != a.IO {
-					return false
-				}
-				call, isC := s.Val.(*ssa.Call)
-				return isC && calleeName(&call.Call) == "bufio.NewReadWriter"
-			}, 0)
+			}
 			r.Add(rule, "io-set-before-spawn:"+c.FuncKey(m), c.InstrPos(g), c.FuncKey(g.Parent()), "the goroutine starts only after the buffered reader/writer was created", ok, "store of bufio.NewReadWriter(...) to the I/O field dominates the go statement")
 		}
 	}
@@ -1154,7 +1167,7 @@ func (c *Ctx) connPointersRule(rule string) {
 				return
 			}
 			fv, base := fieldOf(s.Addr)
-			if fv != a.IO && fv != a.Sock {
+			if !a.isIO(fv) && fv != a.Sock {
 				return
 			}
 			if c.allOriginsLocalAlloc(base, fn) {
